@@ -492,7 +492,8 @@ impl Buffer {
         let t_info3 = 0;
         let t_info4 = 0;
         let mut t_flags = 0;
-        let mut t_info_str = self.get_font(0).unwrap().name.clone();
+        // a document need not have a font in slot 0: no font name is recorded then
+        let mut t_info_str = self.get_font(0).map(|font| font.name.clone()).unwrap_or_default();
 
         match sauce_file_type {
             SauceFileType::Ascii => {
